@@ -16,7 +16,7 @@ import warnings
 from typing import Dict, List, Optional, Set, Tuple
 
 from ..flow import defuse, names_in, param_value_used
-from ..index import AnalysisError, FuncInfo, Index, call_name, dotted, walk_no_nested
+from ..index import AnalysisError, FuncInfo, Index, call_name, dotted, parents, walk_no_nested
 from ..patchspecs import PatchSpec, collect_specs
 from ..guards import src
 from ..report import Results
@@ -147,6 +147,7 @@ def run(res: Results, idx: Index, tier: str) -> None:
     rule_j(res, idx)
     rule_k(res, idx, specs)
     rule_l(res, idx, specs)
+    rule_m(res, idx, specs)
     if not getattr(res, "_nested_xref", False):
         # a memo that forgets a parameter ignores that argument on every later call (C14 R-C14g)
         from . import c14
@@ -818,3 +819,66 @@ def rule_l(res: Results, idx: Index, specs) -> None:
             else:
                 res.violation("R-C19l", site, key, f"{sp.fq}: omitting `{name}` means {od!r} in the library and {dv!r} in the substitute", cls_name)
     res.analysed["defaults_compared"] = n
+
+
+# ---------------------------------------------------------------------------------------------- R-C19m
+def rule_m(res: Results, idx: Index, specs) -> None:
+    """A substitute that takes a keyword out of its **kwargs by name (`v = kwargs.pop("inputs_v", None)`) has accepted that
+    argument: the fall-back for unknown keywords no longer sees it.  The value then has to reach the computation.  A local
+    that is only looked at in tests whose bodies raise (validation copied from the library) or in the raise itself is an
+    argument accepted and ignored: `m(q, inputs_k=k, inputs_v=v)` exported attention(q, k, k)."""
+    res.rule("R-C19m", "values a substitute takes out of **kwargs by name reach the computation (not only validation)", floor=20)
+    seen: Set[int] = set()
+    n = 0
+    for sp in specs:
+        w = sp.wrapper
+        if w is None or isinstance(w, ast.Lambda) or id(w) in seen or w.args.kwarg is None:
+            continue
+        seen.add(id(w))
+        V = w.args.kwarg.arg
+        cls_name = sp.cls.name if sp.cls else "?"
+        for st in ast.walk(w):
+            if not (isinstance(st, ast.Assign) and len(st.targets) == 1 and isinstance(st.targets[0], ast.Name)):
+                continue
+            v = st.value
+            k = None
+            if isinstance(v, ast.Call) and isinstance(v.func, ast.Attribute) and v.func.attr in ("pop", "get") and isinstance(v.func.value, ast.Name) and v.func.value.id == V and v.args and isinstance(v.args[0], ast.Constant):
+                k = v.args[0].value
+            elif isinstance(v, ast.Subscript) and isinstance(v.value, ast.Name) and v.value.id == V and isinstance(v.slice, ast.Constant):
+                k = v.slice.value
+            if not isinstance(k, str):
+                continue
+            N = st.targets[0].id
+            n += 1
+            key = f"{sp.fq}::{k}::taken-from-kwargs"
+            site = f"{sp.module.rel}:{st.lineno}"
+            uses = 0
+            checks = 0
+            for x in ast.walk(w):
+                if not (isinstance(x, ast.Name) and x.id == N and isinstance(x.ctx, ast.Load) and getattr(x, "lineno", 0) >= st.lineno and x is not st.targets[0]):
+                    continue
+                validation = False
+                cur = x
+                for p_ in parents(x):
+                    if isinstance(p_, ast.Raise):
+                        validation = True
+                        break
+                    if isinstance(p_, ast.If) and any(cur is t or cur in list(ast.walk(p_.test)) for t in [p_.test]):
+                        body_raises = bool(p_.body) and all(isinstance(b, (ast.Raise, ast.Expr, ast.Pass)) for b in p_.body) and any(isinstance(b, ast.Raise) for b in p_.body) and not p_.orelse
+                        validation = body_raises
+                        break
+                    if isinstance(p_, (ast.FunctionDef, ast.AsyncFunctionDef, ast.Lambda)) and p_ is w:
+                        break
+                if validation:
+                    checks += 1
+                else:
+                    uses += 1
+            if uses:
+                res.ok("R-C19m", site, key, f"`{N}` (keyword `{k}`) is used {uses} time(s) beyond validation", cls_name)
+            elif v.func.attr == "get" if isinstance(v, ast.Call) else False:
+                # .get leaves the keyword in **kwargs: it still travels on with the rest
+                res.ok("R-C19m", site, key, f"`{k}` is only inspected; it stays in **{V}", cls_name)
+            else:
+                res.violation("R-C19m", site, key, f"{sp.fq}: the substitute takes `{k}` out of **{V} into `{N}` and then only validates it ({checks} test(s) that raise): the value never reaches the computation, "
+                              f"and because the keyword is removed the fall-back for unknown keywords no longer handles it — the argument is accepted and ignored", cls_name)
+    res.analysed["keywords_taken_from_kwargs"] = n
